@@ -1023,8 +1023,8 @@ class RequestHistories(Stream):
 
 CHECK = Check(
     prop="C10",
-    gen=["Multipart", "Urlencode", "FormGlue", "PyFns_Multipart", "PyFns_Decoder"],
-    modules=["WzVerif.Props.C10", "WzVerif.Props.C10T", "WzVerif.Props.C10T2"],
+    gen=["Multipart", "Urlencode", "FormGlue", "PyFns_Multipart", "PyFns_Decoder", "PyFns_FormGlue"],
+    modules=["WzVerif.Props.C10", "WzVerif.Props.C10T", "WzVerif.Props.C10T2", "WzVerif.Props.C10T3"],
     streams=[DecoderLimits(), ParserLimitsChecked(), UrlRead(), RequestLimits(), RequestHistories()],
     assumptions=[
         "C10T (MultipartDecoder.receive_data as regenerated from the source): bytearray.extend is modelled as appending (prelude, kernel row bytearray); the limit attribute is an Optional int handed over as such",
